@@ -4,17 +4,35 @@ pub use methods::dispatch as uom_convert;
 
 use crate::{CelError, CelResult};
 use uom::si::f64::{Mass, ThermodynamicTemperature, Velocity, Volume};
-use uom::si::mass::{gram, kilogram, milligram, ounce, pound, slug, ton};
+use uom::si::mass::{gram, kilogram, milligram, ton};
 use uom::si::thermodynamic_temperature::{degree_celsius, degree_fahrenheit, kelvin};
 use uom::si::velocity::{
     foot_per_second, kilometer_per_hour, knot, meter_per_second, mile_per_hour,
 };
-use uom::si::volume::{
-    cubic_foot, cubic_meter, cubic_yard, cup, fluid_ounce, gallon, liter, milliliter, pint_dry,
-    pint_liquid, quart_dry, quart_liquid, tablespoon, teaspoon,
-};
+use uom::si::volume::{cubic_meter, liter, milliliter};
 
-const STONE_IN_POUNDS: f64 = 14.0;
+// Exact definitions of the customary units (international yard and pound, 1959: 1 lb = 0.45359237 kg,
+// 1 in = 0.0254 m; US gallon = 231 in^3; US bushel = 2150.42 in^3).  The `uom` crate carries these
+// factors rounded to seven significant digits (1 lb = 0.4535924 kg, 1 gal = 3.785412 L, ...), which
+// is an error of about 1e-7 of the value, so they are spelled out here.
+const POUND_IN_KILOGRAMS: f64 = 0.45359237;
+const OUNCE_IN_KILOGRAMS: f64 = POUND_IN_KILOGRAMS / 16.0;
+const STONE_IN_KILOGRAMS: f64 = POUND_IN_KILOGRAMS * 14.0;
+// 1 slug = 1 lbf s^2/ft with standard gravity 9.80665 m/s^2 and 1 ft = 0.3048 m
+const SLUG_IN_KILOGRAMS: f64 = POUND_IN_KILOGRAMS * 9.80665 / 0.3048;
+
+const CUBIC_INCH_IN_CUBIC_METERS: f64 = 0.000016387064;
+const GALLON_IN_CUBIC_METERS: f64 = 231.0 * CUBIC_INCH_IN_CUBIC_METERS;
+const QUART_LIQUID_IN_CUBIC_METERS: f64 = GALLON_IN_CUBIC_METERS / 4.0;
+const PINT_LIQUID_IN_CUBIC_METERS: f64 = GALLON_IN_CUBIC_METERS / 8.0;
+const CUP_IN_CUBIC_METERS: f64 = GALLON_IN_CUBIC_METERS / 16.0;
+const FLUID_OUNCE_IN_CUBIC_METERS: f64 = GALLON_IN_CUBIC_METERS / 128.0;
+const TABLESPOON_IN_CUBIC_METERS: f64 = GALLON_IN_CUBIC_METERS / 256.0;
+const TEASPOON_IN_CUBIC_METERS: f64 = GALLON_IN_CUBIC_METERS / 768.0;
+const QUART_DRY_IN_CUBIC_METERS: f64 = 2150.42 / 32.0 * CUBIC_INCH_IN_CUBIC_METERS;
+const PINT_DRY_IN_CUBIC_METERS: f64 = 2150.42 / 64.0 * CUBIC_INCH_IN_CUBIC_METERS;
+const CUBIC_FOOT_IN_CUBIC_METERS: f64 = 1728.0 * CUBIC_INCH_IN_CUBIC_METERS;
+const CUBIC_YARD_IN_CUBIC_METERS: f64 = 46656.0 * CUBIC_INCH_IN_CUBIC_METERS;
 
 #[dispatch]
 pub mod methods {
@@ -151,11 +169,11 @@ impl MassUnit {
             MassUnit::Kilogram => Mass::new::<kilogram>(value),
             MassUnit::Gram => Mass::new::<gram>(value),
             MassUnit::Milligram => Mass::new::<milligram>(value),
-            MassUnit::Pound => Mass::new::<pound>(value),
-            MassUnit::Ounce => Mass::new::<ounce>(value),
-            MassUnit::Stone => Mass::new::<pound>(value * STONE_IN_POUNDS),
+            MassUnit::Pound => Mass::new::<kilogram>(value * POUND_IN_KILOGRAMS),
+            MassUnit::Ounce => Mass::new::<kilogram>(value * OUNCE_IN_KILOGRAMS),
+            MassUnit::Stone => Mass::new::<kilogram>(value * STONE_IN_KILOGRAMS),
             MassUnit::Ton => Mass::new::<ton>(value),
-            MassUnit::Slug => Mass::new::<slug>(value),
+            MassUnit::Slug => Mass::new::<kilogram>(value * SLUG_IN_KILOGRAMS),
         }
     }
 
@@ -164,11 +182,11 @@ impl MassUnit {
             MassUnit::Kilogram => mass.get::<kilogram>(),
             MassUnit::Gram => mass.get::<gram>(),
             MassUnit::Milligram => mass.get::<milligram>(),
-            MassUnit::Pound => mass.get::<pound>(),
-            MassUnit::Ounce => mass.get::<ounce>(),
-            MassUnit::Stone => mass.get::<pound>() / STONE_IN_POUNDS,
+            MassUnit::Pound => mass.get::<kilogram>() / POUND_IN_KILOGRAMS,
+            MassUnit::Ounce => mass.get::<kilogram>() / OUNCE_IN_KILOGRAMS,
+            MassUnit::Stone => mass.get::<kilogram>() / STONE_IN_KILOGRAMS,
             MassUnit::Ton => mass.get::<ton>(),
-            MassUnit::Slug => mass.get::<slug>(),
+            MassUnit::Slug => mass.get::<kilogram>() / SLUG_IN_KILOGRAMS,
         }
     }
 }
@@ -196,18 +214,26 @@ impl VolumeUnit {
         match self {
             VolumeUnit::Liter => Volume::new::<liter>(value),
             VolumeUnit::Milliliter => Volume::new::<milliliter>(value),
-            VolumeUnit::Gallon => Volume::new::<gallon>(value),
-            VolumeUnit::QuartLiquid => Volume::new::<quart_liquid>(value),
-            VolumeUnit::QuartDry => Volume::new::<quart_dry>(value),
-            VolumeUnit::PintLiquid => Volume::new::<pint_liquid>(value),
-            VolumeUnit::PintDry => Volume::new::<pint_dry>(value),
-            VolumeUnit::Cup => Volume::new::<cup>(value),
-            VolumeUnit::FluidOunce => Volume::new::<fluid_ounce>(value),
-            VolumeUnit::Tablespoon => Volume::new::<tablespoon>(value),
-            VolumeUnit::Teaspoon => Volume::new::<teaspoon>(value),
+            VolumeUnit::Gallon => Volume::new::<cubic_meter>(value * GALLON_IN_CUBIC_METERS),
+            VolumeUnit::QuartLiquid => {
+                Volume::new::<cubic_meter>(value * QUART_LIQUID_IN_CUBIC_METERS)
+            }
+            VolumeUnit::QuartDry => Volume::new::<cubic_meter>(value * QUART_DRY_IN_CUBIC_METERS),
+            VolumeUnit::PintLiquid => {
+                Volume::new::<cubic_meter>(value * PINT_LIQUID_IN_CUBIC_METERS)
+            }
+            VolumeUnit::PintDry => Volume::new::<cubic_meter>(value * PINT_DRY_IN_CUBIC_METERS),
+            VolumeUnit::Cup => Volume::new::<cubic_meter>(value * CUP_IN_CUBIC_METERS),
+            VolumeUnit::FluidOunce => {
+                Volume::new::<cubic_meter>(value * FLUID_OUNCE_IN_CUBIC_METERS)
+            }
+            VolumeUnit::Tablespoon => {
+                Volume::new::<cubic_meter>(value * TABLESPOON_IN_CUBIC_METERS)
+            }
+            VolumeUnit::Teaspoon => Volume::new::<cubic_meter>(value * TEASPOON_IN_CUBIC_METERS),
             VolumeUnit::CubicMeter => Volume::new::<cubic_meter>(value),
-            VolumeUnit::CubicFoot => Volume::new::<cubic_foot>(value),
-            VolumeUnit::CubicYard => Volume::new::<cubic_yard>(value),
+            VolumeUnit::CubicFoot => Volume::new::<cubic_meter>(value * CUBIC_FOOT_IN_CUBIC_METERS),
+            VolumeUnit::CubicYard => Volume::new::<cubic_meter>(value * CUBIC_YARD_IN_CUBIC_METERS),
         }
     }
 
@@ -215,18 +241,18 @@ impl VolumeUnit {
         match self {
             VolumeUnit::Liter => volume.get::<liter>(),
             VolumeUnit::Milliliter => volume.get::<milliliter>(),
-            VolumeUnit::Gallon => volume.get::<gallon>(),
-            VolumeUnit::QuartLiquid => volume.get::<quart_liquid>(),
-            VolumeUnit::QuartDry => volume.get::<quart_dry>(),
-            VolumeUnit::PintLiquid => volume.get::<pint_liquid>(),
-            VolumeUnit::PintDry => volume.get::<pint_dry>(),
-            VolumeUnit::Cup => volume.get::<cup>(),
-            VolumeUnit::FluidOunce => volume.get::<fluid_ounce>(),
-            VolumeUnit::Tablespoon => volume.get::<tablespoon>(),
-            VolumeUnit::Teaspoon => volume.get::<teaspoon>(),
+            VolumeUnit::Gallon => volume.get::<cubic_meter>() / GALLON_IN_CUBIC_METERS,
+            VolumeUnit::QuartLiquid => volume.get::<cubic_meter>() / QUART_LIQUID_IN_CUBIC_METERS,
+            VolumeUnit::QuartDry => volume.get::<cubic_meter>() / QUART_DRY_IN_CUBIC_METERS,
+            VolumeUnit::PintLiquid => volume.get::<cubic_meter>() / PINT_LIQUID_IN_CUBIC_METERS,
+            VolumeUnit::PintDry => volume.get::<cubic_meter>() / PINT_DRY_IN_CUBIC_METERS,
+            VolumeUnit::Cup => volume.get::<cubic_meter>() / CUP_IN_CUBIC_METERS,
+            VolumeUnit::FluidOunce => volume.get::<cubic_meter>() / FLUID_OUNCE_IN_CUBIC_METERS,
+            VolumeUnit::Tablespoon => volume.get::<cubic_meter>() / TABLESPOON_IN_CUBIC_METERS,
+            VolumeUnit::Teaspoon => volume.get::<cubic_meter>() / TEASPOON_IN_CUBIC_METERS,
             VolumeUnit::CubicMeter => volume.get::<cubic_meter>(),
-            VolumeUnit::CubicFoot => volume.get::<cubic_foot>(),
-            VolumeUnit::CubicYard => volume.get::<cubic_yard>(),
+            VolumeUnit::CubicFoot => volume.get::<cubic_meter>() / CUBIC_FOOT_IN_CUBIC_METERS,
+            VolumeUnit::CubicYard => volume.get::<cubic_meter>() / CUBIC_YARD_IN_CUBIC_METERS,
         }
     }
 }
